@@ -44,6 +44,19 @@ InModel ==
     [] chart = "halfspace" -> RSgn(c[N]) >= 0 /\ (RIsZero(c[N]) <=> Ideal(x))
     [] OTHER -> TRUE
 
+\* Points far from the origin (cosh d up to 3363): solutions of the Pell equation x^2 - 2 y^2 = 1 give perfect-square
+\* points (x, y, y, 0, ...) of Minkowski norm -1.  Their Klein / Poincare / hyperboloid coordinates are single
+\* divisions; the rational half-space formulas and the round-trip invariants would overflow 32-bit arithmetic
+\* for them, so they are only emitted (the harness checks conversions among these models and library round trips).
+PadN(v) == v \o [i \in 1..(N + 1 - Len(v)) |-> 0]
+FarPts == IF N >= 2 THEN {PadN(<<17, 12, 12>>), PadN(<<99, 70, 70>>), PadN(<<577, 408, 408>>), PadN(<<3363, 2378, 2378>>),
+                          PadN(<<577, 0 - 408, 408>>), PadN(<<3363, 2378, 0 - 2378>>), PadN(<<99, 0 - 70, 0 - 70>>)}
+          ELSE {<<5, 4>>, <<13, 12>>, <<25, 24>>, <<41, 40>>, <<41, 0 - 40>>}
+FarCoshSq(u, v) == R(MDot(u, v), S(u) * S(v))          \* -cosh d (both of norm -s^2); small enough not to overflow
+ASSUME PrintT("FAR " \o ToJson({[x |-> v, s |-> S(v), klein |-> Klein(v), poincare |-> Poincare(v),
+                                    hyperboloid |-> Hyperboloid(v)] : v \in FarPts}))
+ASSUME PrintT("FARPAIRS " \o ToJson({<<u, v, FarCoshSq(u, v)>> : u \in FarPts, v \in FarPts}))
+
 Emit == PrintT("EMIT " \o ToJson([x |-> x, ideal |-> Ideal(x), from |-> [m |-> chart, c |-> c],
                                     to |-> [m |-> chart', c |-> c']]))
 View == <<x, chart, c>>
